@@ -5,7 +5,11 @@ HERE = os.path.dirname(os.path.abspath(__file__))
 sys.path.insert(0, os.path.dirname(HERE))
 import glob
 CLAIMED = {}
+with open(os.path.join(HERE, "manifest", "claimed.json")) as f:
+    CLAIM_LIST = json.load(f)          # maintained by hand: a property is claimed once its check is complete
 for path in sorted(glob.glob(os.path.join(HERE, "manifest", "C*.json"))):
+    if os.path.basename(path)[:-5] not in CLAIM_LIST:
+        continue
     with open(path) as f:
         CLAIMED[os.path.basename(path)[:-5]] = json.load(f)
 NOT_YET = {}
